@@ -1,4 +1,7 @@
 #include <yaclib/fault/detail/fiber/mutex.hpp>
+#ifdef YACLIB_VERIF
+#  include <yaclib/fault/verif.hpp>
+#endif
 
 namespace yaclib::detail::fiber {
 
@@ -7,18 +10,30 @@ void Mutex::lock() {
     _queue.Wait(NoTimeoutTag{});
   }
   _occupied = true;
+#ifdef YACLIB_VERIF
+  verif::OnSync(this, verif::kLock, 1);
+#endif
 }
 
 bool Mutex::try_lock() noexcept {
   if (_occupied) {
+#ifdef YACLIB_VERIF
+    verif::OnSync(this, verif::kTryLock, 0);
+#endif
     return false;
   }
   _occupied = true;
+#ifdef YACLIB_VERIF
+  verif::OnSync(this, verif::kTryLock, 1);
+#endif
   return true;
 }
 
 void Mutex::unlock() noexcept {
   _occupied = false;
+#ifdef YACLIB_VERIF
+  verif::OnSync(this, verif::kUnlock, 1);
+#endif
   _queue.NotifyOne();
 }
 
